@@ -8,7 +8,7 @@ import subprocess
 
 from . import REPO, VERIF
 
-_NP_BOUND = "batches of length 0, 1, 2, 4, 11 over {0.5, nan, -inf, inf, -1, 0, 1, 2.5, 3, 2.9999999999999996, 1.75} (record arrays), weights {1, scalar 0.5, array (1, 0, 2, 0.5, ...)}, whole batch and split into two successive fill.numpy calls, child templates {Count, Sum, Average, Deviate, Minimize, Bin(2)}; JSON compared up to zero-weight sparse bins; inputs unmodified"
+_NP_BOUND = "batches of length 0, 1, 2, 4, 13 over {0.5, nan, -inf, inf, -1, 0, 1, 2.5, 3, 2.9999999999999996, 1.75, 1e19, -1e300} (record arrays), weights {1, scalar 0.5, array (1, 0, 2, 0.5, ...)}, whole batch and split into two successive fill.numpy calls, child templates {Count, Sum, Average, Deviate, Minimize, Bin(2)}; JSON compared up to zero-weight sparse bins; inputs unmodified"
 _NP_CLASSES = ["Count", "Sum", "Average", "Deviate", "Minimize", "Maximize", "Bag", "Bin", "SparselyBin", "CentrallyBin", "IrregularlyBin", "Stack", "Fraction", "Select", "Categorize", "Label", "UntypedLabel", "Index", "Branch"]
 _NP_MOD = {"Count": "count", "Sum": "sum", "Average": "average", "Deviate": "deviate", "Minimize": "minmax", "Maximize": "minmax", "Bag": "bag", "Bin": "bin", "SparselyBin": "sparselybin", "CentrallyBin": "centrallybin", "IrregularlyBin": "irregularlybin", "Stack": "stack", "Fraction": "fraction", "Select": "select", "Categorize": "categorize", "Label": "collection", "UntypedLabel": "collection", "Index": "collection", "Branch": "collection"}
 
@@ -35,6 +35,8 @@ NATIVE = {
          "all trees of depth <= 2 over the 12 container classes with one aggregator object installed at two fillable positions (siblings, cousins under different parents, a node and its own descendant), first and later fills, fill and fill.numpy: ContainerException before any state change; the same trees without sharing (incl. a shared unfilled template) are never rejected"),
     ],
     "C04": [
+        ("C04:Stack.build", "histogrammar.primitives.stack.Stack.build", "bounded:built-stack-and-its-clones-interchangeable",
+         "Stack.build of three filled Bins (all thresholds NaN, outside the wf of the proved Stack contracts): pickle clone, JSON reload and copy serialise identically and can be merged with the original and with each other, scaled, added to their zero()"),
         ("C04:Bag.json", "histogrammar.primitives.bag.Bag.toJsonFragment", "bounded:json-roundtrip",
          "Bag of range N / S / N2 filled with up to 2 data from the critical alphabet (incl. nan, +-inf): strict dumps, reload re-serialises identically, reloaded usable under zero/copy/+/*"),
     ],
